@@ -101,6 +101,8 @@ def edge_docs():
         docs.append("Feature: f\n  Scenario: o\n    Given a\n  @first\n" + run + "  junk\n")
     docs.append("Feature: f\n  Scenario: s\n    Given t\n" + "".join(f"      | r{i} | v |\n" for i in range(1200)))
     docs.append("Feature: f\n  Scenario: s\n" + "".join(f"    And step {i}\n" for i in range(1100)))
+    docs.append("Feature: f\n  Background:\n" + "".join(f"    But b{i}\n" for i in range(600)) + "  Scenario Outline: s\n" +
+                "".join(f"    And <a> {i}\n" for i in range(700)) + "    Examples:\n      | a |\n      | 1 |\n")
     docs.append("Feature: f\n  Scenario Outline: s\n    Given <a>\n" + "".join(f"    Examples: e{i}\n      | a |\n      | {i} |\n" for i in range(70)))
     docs.append("Feature: f\n  Scenario: s\n    Given d\n      \"\"\"\n" + "".join(f"      line {i}\n" for i in range(1100)) + "      \"\"\"\n")
     docs.append("Feature: f\n" + "".join(f"  Rule: r{i}\n    Example: e\n      Given x\n" for i in range(70)))
